@@ -260,7 +260,7 @@ class LiteralProvider(LoaderProvider, DumperProvider):
             )
 
             # since True == 1 and False == 0
-            def literal_loader_sc(data):
+            def literal_loader(data):
                 try:
                     if (type(data), data) in allowed_values_with_types:
                         return data
@@ -268,21 +268,20 @@ class LiteralProvider(LoaderProvider, DumperProvider):
                     pass
                 raise BadVariantLoadError(allowed_values_repr, data)
 
-            return self._get_literal_loader_with_enum(
-                literal_loader_sc,
-                enum_loaders,
-                allowed_values_with_types,
+            # values produced by enum and bytes loaders are compared only with cases of their own kind
+            allowed_values = self._get_allowed_values_collection(
+                [case for case in cases if isinstance(case, (Enum, bytes))],
             )
+        else:
+            allowed_values = self._get_allowed_values_collection(cases)
 
-        allowed_values = self._get_allowed_values_collection(cases)
-
-        def literal_loader(data):
-            try:
-                if data in allowed_values:
-                    return data
-            except TypeError:  # unhashable data can not be a literal member
-                pass
-            raise BadVariantLoadError(allowed_values_repr, data)
+            def literal_loader(data):
+                try:
+                    if data in allowed_values:
+                        return data
+                except TypeError:  # unhashable data can not be a literal member
+                    pass
+                raise BadVariantLoadError(allowed_values_repr, data)
 
         if bytes_cases and not enum_loaders:
             return self._get_literal_loader_with_bytes(literal_loader, allowed_values, bytes_loader)
